@@ -6,11 +6,13 @@ package coordinator
 
 import (
 	"bytes"
+	"encoding"
 	"errors"
 	"io"
 	"time"
 
 	"github.com/influxdata/influxdb/models"
+	"github.com/influxdata/influxdb/tsdb"
 )
 
 func init() {
@@ -18,6 +20,7 @@ func init() {
 	vRegister("VerifHarness_C15_TLVRoundTrip", VerifHarness_C15_TLVRoundTrip)
 	vRegister("VerifHarness_C15_DecodeLV", VerifHarness_C15_DecodeLV)
 	vRegister("VerifHarness_C15_WriteShardArbitraryPoints", VerifHarness_C15_WriteShardArbitraryPoints)
+	vRegister("VerifHarness_C15_CreateIteratorMalformed", VerifHarness_C15_CreateIteratorMalformed)
 }
 
 // vStream is an io.Reader over an arbitrary byte string that may deliver short reads and records
@@ -260,4 +263,58 @@ func VerifHarness_C15_DecodeLV() {
 	vAssert(bytes.Equal(u.got, payload), "C15.decodelv-payload")
 	vAssert(s.off == 8+len(payload), "C15.decodelv-consumes-exactly-frame")
 	vReach("C15.decodelv.end")
+}
+
+// --- K2 (one handler): a CreateIterator request whose length/value part is malformed - negative
+// or oversized length, truncated frame, undecodable payload - is answered and never takes the
+// connection handler (and with it the node) down. The tracing package runs for real here.
+
+type vC15IterStore struct {
+	TSDBStore // unimplemented methods panic if reached
+}
+
+func (vC15IterStore) ShardGroup(ids []uint64) tsdb.ShardGroup { return nil }
+
+type vC15Conn struct {
+	vC05Conn
+	wrote int
+}
+
+func (c *vC15Conn) Write(p []byte) (int, error) { c.wrote += len(p); return len(p), nil }
+
+var vC15Replies int
+
+// engine-side models of the protobuf-backed request decoder and reply encoder
+func vC15UnmarshalCreateIterator(r *CreateIteratorRequest, data []byte) error {
+	if vEnvChoice("createIteratorPayloadUndecodable", 2) == 1 {
+		return errors.New("proto: CreateIteratorRequest: illegal tag 0")
+	}
+	return nil
+}
+
+func vC15EncodeTLVModel(w io.Writer, typ byte, v encoding.BinaryMarshaler) error {
+	vC15Replies++
+	return nil
+}
+
+func VerifHarness_C15_CreateIteratorMalformed() {
+	vC15Replies = 0
+	maxN := 10
+	if vThorough() {
+		maxN = 12
+	}
+	data := vBytes("stream", vLen("streamLen", 0, maxN))
+	conn := &vC15Conn{vC05Conn: vC05Conn{r: bytes.NewReader(data)}}
+	s := NewService(Config{})
+	s.TSDBStore = vC15IterStore{}
+	panicked := true
+	func() {
+		defer func() { recover() }()
+		s.processCreateIteratorRequest(conn)
+		panicked = false
+	}()
+	vAssert(!panicked, "C15.malformed-create-iterator-request-no-panic")
+	vAssert(panicked || conn.wrote > 0 || vC15Replies > 0, "C15.create-iterator-request-is-answered")
+	vObserve("panicked", panicked)
+	vReach("C15.createiterator.end")
 }
